@@ -65,6 +65,13 @@ type AppA struct {
 	Sched []Op
 	// SeqMismatch counts transactions rejected for a wrong account sequence / signature.
 	SeqMismatch int
+	// RestartEvery > 0: after every RestartEvery-th committed block the process is "restarted": a new
+	// application object is built over the same database and loads the committed state, so that
+	// nothing kept in memory by the old one survives.
+	RestartEvery int
+	Restarts     int
+	db           dbm.DB
+	appOpts      simtestutil.AppOptionsMap
 }
 
 // BlockA is what one block produced.
@@ -127,7 +134,7 @@ func NewAppA() (*AppA, error) {
 		Validators: []abci.ValidatorUpdate{}}); err != nil {
 		return nil, err
 	}
-	x := &AppA{TxCfg: authtx.NewTxConfig(cdc, authtx.DefaultSignModes), Height: 0, Now: T0, seq: map[int]uint64{}, accNum: map[int]uint64{}}
+	x := &AppA{TxCfg: authtx.NewTxConfig(cdc, authtx.DefaultSignModes), Height: 0, Now: T0, seq: map[int]uint64{}, accNum: map[int]uint64{}, db: db, appOpts: appOptions}
 	x.B = &Base{App: a, K: a.FundraisingKeeper, DistrAddr: authtypes.NewModuleAddress(distrtypes.ModuleName), GovAddr: authtypes.NewModuleAddress("gov").String()}
 	for i := 0; i < NumAccounts; i++ {
 		x.accNum[i] = uint64(i)
@@ -135,6 +142,17 @@ func NewAppA() (*AppA, error) {
 	// one empty block so that the genesis state is committed
 	x.deliver(T0, nil)
 	return x, nil
+}
+
+// Restart replaces the application object by a new one built over the same database.
+func (x *AppA) Restart() error {
+	a, err := app.New(log.NewNopLogger(), x.db, nil, true, x.appOpts, baseapp.SetChainID(chainIDA))
+	if err != nil {
+		return err
+	}
+	x.B = &Base{App: a, K: a.FundraisingKeeper, DistrAddr: x.B.DistrAddr, GovAddr: x.B.GovAddr}
+	x.Restarts++
+	return nil
 }
 
 // Ctx returns a context over the committed state (direct writes are committed with the next block).
@@ -269,6 +287,11 @@ func (x *AppA) deliver(t time.Time, msgs []Op) BlockA {
 	}
 	blk.AppHash = fmt.Sprintf("%X", resp.AppHash)
 	blk.Render = sb.String()
+	if x.RestartEvery > 0 && blk.Err == "" && x.Height%int64(x.RestartEvery) == 0 {
+		if err := x.Restart(); err != nil && x.Failed == "" {
+			x.Failed = fmt.Sprintf("restart after height %d: %v", x.Height, err)
+		}
+	}
 	x.Blocks = append(x.Blocks, blk)
 	if x.OnBlock != nil {
 		x.OnBlock(blk)
